@@ -16,7 +16,7 @@ class Unsupported(Exception):
 
 
 class Kernel:
-    def __init__(self, path, cls, fn, gname, params, opt, attrs=None, selfmap=None, calls=None, ret="Z", drop_asserts=True, branch=None, pre=None):
+    def __init__(self, path, cls, fn, gname, params, opt, attrs=None, selfmap=None, calls=None, ret="Z", drop_asserts=True, branch=None, pre=None, uint=None):
         self.path, self.cls, self.fn, self.gname = path, cls, fn, gname
         self.params = params          # [(gallina name, type)] in order; type 'Z' | 'optZ' | 'bool'
         self.opt = opt                # python-level name of every optional parameter -> gallina parameter name
@@ -26,6 +26,11 @@ class Kernel:
         self.ret = ret
         self.branch = branch          # optional: (predicate on statement) selecting a sub-body
         self.pre = pre or {}          # python variable -> (gallina, type) known on entry
+        self.uint = uint              # register width w: the kernel computes in numpy's unsigned w-bit type (casts and `<<` wrap mod 2^w, `~x` is 2^w-1-x)
+
+
+RESERVED = {"end", "L", "at", "in", "as", "fun", "let", "match", "with", "return", "if", "then", "else", "mod", "Type", "Set", "Prop", "fix", "for"}
+def gname(n): return n + "_" if n in RESERVED else n
 
 
 class Tr:
@@ -46,7 +51,8 @@ class Tr:
             raise Unsupported("constant " + repr(e.value))
         if isinstance(e, ast.Name): return self.name(e.id)
         if isinstance(e, ast.Attribute) and isinstance(e.value, ast.Name):
-            if e.value.id == "self":
+            if e.value.id in ("self", "cls"):
+                if "self." + e.attr in self.env: return self.env["self." + e.attr]
                 if e.attr in k.selfmap: return (k.selfmap[e.attr], "Z")
                 raise Unsupported(f"self.{e.attr}")
             if (e.value.id, e.attr) in k.attrs: return self.name(k.attrs[(e.value.id, e.attr)])
@@ -55,11 +61,17 @@ class Tr:
             v, t = self.expr(e.operand)
             if isinstance(e.op, ast.USub) and t == "Z": return (f"(- {v})", "Z")
             if isinstance(e.op, (ast.Invert, ast.Not)) and t == "bool": return (f"(negb {v})", "bool")
+            if isinstance(e.op, ast.Invert) and t == "Z" and k.uint: return (f"(2 ^ {k.uint} - 1 - {v})", "Z")
             raise Unsupported(ast.dump(e)[:80])
         if isinstance(e, ast.BinOp):
             a, ta = self.expr(e.left); b, tb = self.expr(e.right)
             ops = {ast.Add: "+", ast.Sub: "-", ast.Mult: "*", ast.FloorDiv: "/", ast.Mod: "mod"}
             if type(e.op) in ops and ta == tb == "Z": return (f"({a} {ops[type(e.op)]} {b})", "Z")
+            if isinstance(e.op, ast.RShift) and ta == tb == "Z" and k.uint: return (f"(Z.shiftr {a} {b})", "Z")
+            if isinstance(e.op, ast.LShift) and ta == tb == "Z" and k.uint: return (f"((Z.shiftl {a} {b}) mod 2 ^ {k.uint})", "Z")
+            if isinstance(e.op, ast.BitAnd) and ta == tb == "Z" and k.uint: return (f"(Z.land {a} {b})", "Z")
+            if isinstance(e.op, ast.BitOr) and ta == tb == "Z" and k.uint: return (f"(Z.lor {a} {b})", "Z")
+            if isinstance(e.op, ast.Pow) and ta == tb == "Z" and k.uint: return (f"({a} ^ {b})", "Z")
             if isinstance(e.op, ast.BitAnd) and ta == tb == "bool": return (f"({a} && {b})", "bool")
             if isinstance(e.op, ast.BitOr) and ta == tb == "bool": return (f"({a} || {b})", "bool")
             raise Unsupported(ast.dump(e)[:80])
@@ -96,7 +108,17 @@ class Tr:
             if f in ("asanyarray", "asarray") and len(ts) >= 1 and ts[0] == "Z": return (vs[0], "Z")
             if f in ("any", "all") and ts == ["bool"]: return (vs[0], "bool")          # per row: reduction of a one-element mask
             if f == "min" and ts == ["Z"] and vs[0] in k.calls.get("np.min", {}): return (k.calls["np.min"][vs[0]], "Z")
+            if f == "arange" and "np.arange" in k.calls and len(ts) == 1: return (k.calls["np.arange"], "Z")       # per element: the element's own position
             raise Unsupported(f"np.{f}{ts}")
+        if k.uint and isinstance(e, ast.Call) and ast.unparse(e.func) in ("self._dtype", "cls._dtype") and len(e.args) == 1 and not e.keywords:
+            v, t = self.expr(e.args[0])
+            if t == "Z": return (f"({v} mod 2 ^ {k.uint})", "Z")                       # conversion to the unsigned register type
+        if k.uint and isinstance(e, ast.Call) and isinstance(e.func, ast.Attribute) and e.func.attr == "astype" and len(e.args) == 1 \
+           and ast.unparse(e.args[0]) in ("self._dtype", "cls._dtype"):
+            v, t = self.expr(e.func.value)
+            if t == "Z": return (f"({v} mod 2 ^ {k.uint})", "Z")
+        if isinstance(e, ast.Call) and isinstance(e.func, ast.Attribute) and e.func.attr == "ravel" and not e.args:
+            return self.expr(e.func.value)                                              # per element: a reshape
         if isinstance(e, ast.Call) and isinstance(e.func, ast.Name) and e.func.id == "abs":
             v, t = self.expr(e.args[0])
             if t == "Z": return (f"(Z.abs {v})", "Z")
@@ -141,6 +163,12 @@ def block(tr, stmts, k):
     if isinstance(s, ast.Assert): return block(tr, rest, k)                                            # becomes a hypothesis of the tie lemma
     if isinstance(s, ast.Assign) and len(s.targets) == 1:
         tg = s.targets[0]
+        if isinstance(tg, ast.Tuple) and isinstance(s.value, ast.Call) and "tuplecall:" + ast.unparse(s.value) in k.calls:
+            vals = k.calls["tuplecall:" + ast.unparse(s.value)]                         # start, end, _ = s.indices(len(self)): the results are parameters
+            new = Tr(k, tr.env, tr.none)
+            for t_, v_ in zip(tg.elts, vals):
+                if v_ is not None: new.env[t_.id] = (v_, "Z"); new.none.discard(t_.id)
+            return block(new, rest, k)
         if isinstance(tg, ast.Tuple) and isinstance(s.value, ast.Tuple) and len(tg.elts) == len(s.value.elts):
             new = Tr(k, tr.env, tr.none); lets = []
             for t_, v_ in zip(tg.elts, s.value.elts):
@@ -150,12 +178,20 @@ def block(tr, stmts, k):
                     if src in tr.none: new.none.add(t_.id); new.env.pop(t_.id, None)
                     else: new.env[t_.id] = tr.name(src); new.none.discard(t_.id)
                 else:
-                    v, ty = tr.expr(v_); lets.append((t_.id, v)); new.env[t_.id] = (t_.id, ty); new.none.discard(t_.id)
+                    v, ty = tr.expr(v_); lets.append((gname(t_.id), v)); new.env[t_.id] = (gname(t_.id), ty); new.none.discard(t_.id)
             body = block(new, rest, k)
-            for n, v in reversed(lets): body = f"let {n} := {v} in\n  {body}"
+            if len(lets) == 1: return f"let {lets[0][0]} := {lets[0][1]} in\n  {body}"
+            if lets:                                                                    # simultaneous, as in Python (a, b = b, a)
+                return "let '(" + ", ".join(n for n, _ in lets) + ") := (" + ", ".join(v for _, v in lets) + f") in\n  {body}"
             return body
         if isinstance(tg, ast.Tuple) and isinstance(s.value, ast.GeneratorExp):     # row, col = (np.asanyarray(v) for v in (row, col)): identity per row
             return block(tr, rest, k)
+        if isinstance(tg, ast.Attribute) and isinstance(tg.value, ast.Name) and tg.value.id == "self":
+            if tg.attr in k.selfmap or not isinstance(s.value, (ast.BinOp, ast.Call, ast.UnaryOp, ast.Constant)) or tg.attr in k.calls.get("skip_attrs", ()):
+                return block(tr, rest, k)                                               # plain storing of an argument (self._data = data): nothing to compute
+            v, ty = tr.expr(s.value); g = "self" + tg.attr
+            new = Tr(k, tr.env, tr.none); new.env["self." + tg.attr] = (g, ty)
+            return f"let {g} := {v} in\n  {block(new, rest, k)}"
         if isinstance(tg, ast.Name):
             # reading an optional attribute into a local keeps its None-ness
             v_ = s.value
@@ -166,9 +202,14 @@ def block(tr, stmts, k):
                 new = Tr(k, tr.env, tr.none | {tg.id}); new.env.pop(tg.id, None)
                 return block(new, rest, k)
             v, ty = tr.expr(v_)
-            g = tg.id + "_" if tg.id in ("L",) else tg.id
+            g = gname(tg.id)
             new = Tr(k, tr.env, tr.none - {tg.id}); new.env[tg.id] = (g, ty)
             return f"let {g} := {v} in\n  {block(new, rest, k)}"
+    if isinstance(s, ast.AugAssign) and isinstance(s.target, ast.Subscript) and "aug:" + ast.unparse(s.target) in k.calls:
+        nm = k.calls["aug:" + ast.unparse(s.target)]                                    # res[:-1] |= x  : per element of the addressed part, res = res | x
+        v, ty = tr.expr(ast.BinOp(left=ast.Name(id=nm), op=s.op, right=s.value))
+        new = Tr(k, tr.env, tr.none); new.env[nm] = (nm, ty)
+        return f"let {nm} := {v} in\n  {block(new, rest, k)}"
     if isinstance(s, ast.AugAssign) and isinstance(s.target, ast.Name):
         v, ty = tr.expr(ast.BinOp(left=s.target, op=s.op, right=s.value))
         new = Tr(k, tr.env, tr.none); new.env[s.target.id] = (s.target.id, ty)
@@ -183,6 +224,7 @@ def block(tr, stmts, k):
     if isinstance(s, ast.Return):
         v = s.value
         wrap = (lambda x: f"Some {x}") if k.ret.startswith("option") else (lambda x: x)
+        if v is not None and "return:" + ast.unparse(v) in k.calls: return k.calls["return:" + ast.unparse(v)]
         if isinstance(v, ast.Call) and ast.unparse(v.func) == "self.__class__":
             parts = [tr.expr(a)[0] for a in v.args]
             if len(parts) == 2: parts.append(k.selfmap.get("__default_step__", "(1)"))
@@ -278,7 +320,89 @@ KERNELS = [
 ]
 
 
-GROUPS = {"view": ["gen_calc_len", "gen_pos_col_slice", "gen_neg_col_slice", "gen_col_int", "gen_ends"], "hash": ["gen_hash"], "rle": ["gen_rle_wrap"]}
+BA = "npstructures/bitarray.py"
+BITSELF = {"_offset": "off_", "_n_entries_per_register": "epr_", "_bit_stride": "stride_", "_mask": "mask_", "_register_size": "(64)", "_shifts": "shift_"}
+
+
+def with_return(*exprs, cut=None):
+    """the body (up to the first statement satisfying `cut`, if given) followed by `return (exprs)`"""
+    def f(body):
+        if cut is not None:
+            for i, s in enumerate(body):
+                if cut(s): body = body[:i]; break
+            else: raise Unsupported("branch selector found nothing")
+        vals = [ast.parse(x, mode="eval").body for x in exprs]
+        return list(body) + [ast.Return(value=vals[0] if len(vals) == 1 else ast.Tuple(elts=vals, ctx=ast.Load()))]
+    return f
+
+
+def loop_body(pred, bind, *exprs):
+    """one iteration of the first matching `for` loop, per element: the statements before the loop, `bind` (the loop variable as the
+    element of the sequence it runs over), the loop body, then `return (exprs)`"""
+    def f(body):
+        for i, s in enumerate(body):
+            if isinstance(s, ast.For) and pred(s):
+                return with_return(*exprs)(list(body[:i]) + ast.parse(bind).body + list(s.body))
+        raise Unsupported("no matching loop")
+    return f
+
+
+KERNELS += [
+    # BitArray.__init__: the derived constants (stride, mask, offset, entries per register, the shift of entry i_)
+    Kernel(BA, "BitArray", "__init__", "gen_bit_init", [("bit_stride", "Z"), ("offset", "Z"), ("i_", "Z")], {}, selfmap={"_register_size": "(64)"}, uint=64,
+           calls={"np.arange": "i_"}, ret="(Z * Z * Z * Z * Z)",
+           branch=with_return("self._bit_stride", "self._mask", "self._offset", "self._n_entries_per_register", "self._shifts")),
+    # BitArray.__getitem__ with an integer: register, offset in the register, shift and mask
+    Kernel(BA, "BitArray", "__getitem__", "gen_bit_get", [("data_", "Z -> Z"), ("idx", "Z"), ("off_", "Z"), ("epr_", "Z"), ("stride_", "Z"), ("mask_", "Z")], {},
+           selfmap=BITSELF, uint=64,
+           calls={"self._data[register_idx]": "(data_ register_idx)", "isinstance:isinstance(idx, list)": False, "isinstance:isinstance(idx, Number)": True}),
+    # ... with an integer array: the same cell, per element (the cells are then packed again)
+    Kernel(BA, "BitArray", "__getitem__", "gen_bit_get_arr", [("data_", "Z -> Z"), ("idx", "Z"), ("off_", "Z"), ("epr_", "Z"), ("stride_", "Z"), ("mask_", "Z")], {},
+           selfmap=BITSELF, uint=64,
+           calls={"self._data[register_idx]": "(data_ register_idx)", "isinstance:isinstance(idx, list)": False, "isinstance:isinstance(idx, Number)": False,
+                  "isinstance:isinstance(idx, np.ndarray)": True},
+           branch=lambda body: [x for s in body for x in ([s] if not (isinstance(s, ast.If) and "np.ndarray" in ast.unparse(s.test)) else
+                                                          with_return("array", cut=lambda t: isinstance(t, ast.Return))(s.body))]),
+    # BitArray.unpack: one cell of (data[:, None] >> shifts) & mask
+    Kernel(BA, "BitArray", "unpack", "gen_bit_unpack", [("reg_", "Z"), ("shift_", "Z"), ("mask_", "Z")], {}, selfmap=BITSELF, uint=64,
+           calls={"self._data[:, None]": "reg_", "values[:self._shape[0]]": "values"}),
+    # BitArray.pack: the shift of entry i_ and one step of the loop `bits[:size] |= x << shift`
+    Kernel(BA, "BitArray", "pack", "gen_bit_pack", [("bits", "Z"), ("x_", "Z"), ("bit_stride", "Z"), ("i_", "Z")], {}, selfmap={"_register_size": "(64)"}, uint=64,
+           calls={"np.arange": "i_", "array[i::n_entries_per_register]": "x_", "aug:bits[:size]": "bits",
+                  "array[0::n_entries_per_register]": "bits", "array[i::n_entries_per_register].size": "(0)"},
+           branch=loop_body(lambda s: "enumerate(shifts[1:], 1)" in ast.unparse(s.iter), "shift = shifts", "bits")),
+    # BitArray.sliding_window: a cell of a register that has a successor, and of the last register
+    Kernel(BA, "BitArray", "sliding_window", "gen_bit_window", [("reg_", "Z"), ("nxt_", "Z"), ("shift_", "Z"), ("rshift_", "Z"), ("window_size", "Z"), ("stride_", "Z")], {},
+           selfmap=BITSELF, uint=64,
+           calls={"self._data[:, None]": "reg_", "self._data[1:, None]": "nxt_", "self._shifts[::-1]": "rshift_", "aug:res[:-1]": "res",
+                  "res.ravel()[:self._shape[0] - window_size + 1]": "res"}),
+    Kernel(BA, "BitArray", "sliding_window", "gen_bit_window_last", [("reg_", "Z"), ("shift_", "Z"), ("rshift_", "Z"), ("window_size", "Z"), ("stride_", "Z")], {},
+           selfmap=BITSELF, uint=64,
+           calls={"self._data[:, None]": "reg_", "self._shifts[::-1]": "rshift_", "res.ravel()[:self._shape[0] - window_size + 1]": "res"},
+           branch=lambda body: [s for s in body if not (isinstance(s, ast.AugAssign) and ast.unparse(s.target) == "res[:-1]")]),
+]
+
+RL = "npstructures/runlengtharray.py"
+KERNELS += [
+    # RunLengthArray._get_slice: the window [start, end) in forward coordinates, None when it is empty
+    Kernel(RL, "RunLengthArray", "_get_slice", "gen_rle_slice_bounds", [("start0", "Z"), ("end0", "Z"), ("step0", "optZ")], {"s_step": "step0"},
+           attrs={("s", "step"): "s_step"}, ret="option (Z * Z)",
+           calls={"tuplecall:s.indices(len(self))": ["start0", "end0", None],
+                  "return:self.__class__(np.array([0]), np.empty_like(self._values, shape=(0,)))": "None"},
+           branch=with_return("(start, end)", cut=lambda s: "_start_to_end" in ast.unparse(s))),
+    # RunLengthArray._step_subset: the new position of one boundary
+    Kernel(RL, "RunLengthArray", "_step_subset", "gen_rle_step_idx", [("x_", "Z"), ("xr_", "Z"), ("last_", "Z"), ("step", "Z")], {},
+           selfmap={"_events": "x_", "_values": "(0)"}, calls={"indices[-1]": "last_", "indices[::-1]": "xr_", "values[::-1]": "(0)"},
+           branch=with_return("indices", cut=lambda s: "remove_empty_intervals" in ast.unparse(s))),
+    # IndexableMixin._step_subset (2-D / ragged variant)
+    Kernel(RL, "IndexableMixin", "_step_subset", "gen_rl2_step_idx", [("x_", "Z"), ("xr_", "Z"), ("last_", "Z"), ("step", "Z")], {},
+           pre={"indices": ("x_", "Z"), "values": ("(0)", "Z")},
+           calls={"indices[..., -1][..., np.newaxis]": "last_", "indices[..., ::-1]": "xr_", "values[..., ::-1]": "(0)"},
+           branch=with_return("indices", cut=lambda s: "remove_empty_intervals" in ast.unparse(s))),
+]
+
+GROUPS = {"view": ["gen_calc_len", "gen_pos_col_slice", "gen_neg_col_slice", "gen_col_int", "gen_ends"], "hash": ["gen_hash"], "rle": ["gen_rle_wrap", "gen_rle_slice_bounds", "gen_rle_step_idx", "gen_rl2_step_idx"],
+          "bits": ["gen_bit_init", "gen_bit_get", "gen_bit_get_arr", "gen_bit_unpack", "gen_bit_pack", "gen_bit_window", "gen_bit_window_last"]}
 
 
 def main():
